@@ -595,7 +595,31 @@ def judge_json_doc(m: Model, through: str, doc: Any) -> List[Tuple[str, str]]:
     r = mistyped_instance(m, inst)
     if r:
         return [(f"C10:json-doc:mistyped-accepted:{r[0].split(':')[0]}<-{r[1]}", f"{through}_from_jsonable accepted a document and stored a {r[1]} where {r[0]} is declared")]
+    try:
+        where = model_type_mismatch(doc, m.sdk.to_jsonable(inst))
+    except BaseException:  # noqa: B902
+        where = None
+    if where is not None:
+        return [("C10:json-doc:wrong-model-type-accepted", f"{through}_from_jsonable accepted a document whose modelType at {where or '.'} is not the model type of the instance it built")]
     return []
+
+
+def model_type_mismatch(doc: Any, back: Any, path: str = "") -> Optional[str]:
+    """Path where the re-serialized instance carries a ``modelType`` that the accepted document does not state."""
+    if isinstance(back, dict) and isinstance(doc, dict):
+        if "modelType" in back and doc.get("modelType") != back["modelType"]:
+            return path
+        for k, v in back.items():
+            if k in doc:
+                r = model_type_mismatch(doc[k], v, f"{path}/{k}")
+                if r is not None:
+                    return r
+    elif isinstance(back, list) and isinstance(doc, (list, tuple)) and len(back) == len(doc):
+        for i, (a, b) in enumerate(zip(doc, back)):
+            r = model_type_mismatch(a, b, f"{path}/{i}")
+            if r is not None:
+                return r
+    return None
 
 
 def judge_xml_doc(m: Model, through: str, text: str) -> List[Tuple[str, str]]:
